@@ -519,6 +519,32 @@ def specials_c08():
         it = [("PUSH", 7)] + deep(cd0, [("PUSH", 1)], cd0) + ["SSTORE"] + deep(cd0, [("PUSH", 0)], cd0) + ["SLOAD"] + out_(0)
         it += deep(cd0, i0, cd0) + ["SLOAD"] + out_(1) + deep(cd0, [("PUSH", 1)], cd0) + ["SLOAD"] + out_(2)
         sp("struct-array-mapping-field", it + ret(3), "nary-sum", (), layout)
+        # read a constant array slot first (registry miss), then hash at runtime, store with a symbolic index, read the constant again
+        p_far = 1000
+        h_far = gen.keccak_int(gen._k32(p_far))
+        it = [("PUSH", (h_far + 1) % (1 << 256), 32), "SLOAD"] + out_(0) + [("PUSH", 7)] + arr_rt(p_far) + cd0 + [("PUSH", 3), "AND", "ADD", "SSTORE"]
+        it += [("PUSH", (h_far + 1) % (1 << 256), 32), "SLOAD"] + out_(1) + arr_rt(p_far) + [("PUSH", 1), "ADD", "SLOAD"] + out_(2)
+        sp("const-read-then-runtime-hash-store", it + ret(3), "const-read-before-runtime-hash", [gen._k32(p_far)], layout)
+        # nested mapping: all-concrete store m[1][2], symbolic load m[1][k] (and the other way round)
+        def mp2(p, k1, k2):
+            return mp(p, k1) + [("PUSH", 32), "MSTORE"] + k2 + ["PUSH0", "MSTORE", ("PUSH", 64), "PUSH0", "SHA3"]
+
+        it = [("PUSH", 0x42)] + mp2(3, [("PUSH", 1)], [("PUSH", 2)]) + ["SSTORE"] + mp2(3, [("PUSH", 1)], cd0) + ["SLOAD"] + out_(0)
+        it += mp2(3, cd1, [("PUSH", 2)]) + ["SLOAD"] + out_(1)
+        sp("nested-map-concrete-store-sym-load", it + ret(2), "nested-mapping-concrete-vs-symbolic", (), layout)
+        it = [("PUSH", 0x42)] + mp2(3, [("PUSH", 1)], cd0) + ["SSTORE"] + mp2(3, [("PUSH", 1)], [("PUSH", 2)]) + ["SLOAD"] + out_(0)
+        sp("nested-map-sym-store-concrete-load", it + ret(1), "nested-mapping-concrete-vs-symbolic", (), layout)
+        # preimages of exactly 96 / 127 / 128 / 129 bytes (a long bytes key concatenated with the slot), concrete store vs symbolic load
+        for nbytes in (96, 128, 160):
+            def long_key(last):
+                w = []
+                for j in range(nbytes // 32 - 1):
+                    w += (last if j == 0 else [("PUSH", 0x1111 * (j + 1))]) + [("PUSH", 32 * j), "MSTORE"]
+                w += [("PUSH", 6), ("PUSH", nbytes - 32), "MSTORE", ("PUSH", nbytes), "PUSH0", "SHA3"]
+                return w
+
+            it = [("PUSH", 0x99)] + long_key([("PUSH", 5)]) + ["SSTORE"] + long_key(cd0) + ["SLOAD"] + out_(0) + long_key([("PUSH", 5)]) + ["SLOAD"] + out_(1)
+            sp(f"long-key-{nbytes}-concrete-store-sym-load", it + ret(2), f"long-preimage-{nbytes}", (), layout)
         # transient storage mirrors
         it = [("PUSH", 1)] + mp(2, cd0) + ["TSTORE", ("PUSH", 2)] + mp(2, cd1) + ["TSTORE"] + mp(2, cd0) + ["TLOAD"] + out_(0)
         it += mp(2, cd0) + ["SLOAD"] + out_(1)
